@@ -42,8 +42,8 @@ Touched(t) ==
     CASE t.m = 0 /\ t.key = WrapTopN -> 1 + (IF t.topint >= 0 THEN t.topint ELSE 0)
       [] t.m = 0 -> t.ka
       [] t.m \in {m_v, m_amp} -> t.ka
-      [] t.m = m_tilde -> IF t.ka >= 2 THEN t.ka ELSE 1
-      [] t.m = m_sz -> t.ka + 1
+      [] t.m = m_tilde -> IF t.ka >= 2 THEN t.ka ELSE t.ka            \* a niladic element under ~ does nothing
+      [] t.m = m_sz -> IF t.condtrue THEN t.ka + 1 ELSE 1              \* a falsy condition: only the condition goes
       [] t.m \in {m_fhook, m_dtail} -> 1
       [] t.m \in {m_para, m_paral} -> t.kb          \* the first element works on a COPY of the stack
       [] OTHER -> 0                    \* lambda-forming modifiers only push a function
@@ -59,12 +59,15 @@ Prop_C09(t) ==
    non-function, and the modifiers whose own template pushes a fixed number of results *)
 ResultCountKnown(t) ==
     \/ t.m = 0 /\ (t.pe \/ t.key = CallKey)
-    \/ t.m \in {m_v, m_fhook, m_dtail, m_para, m_paral}
+    \/ t.m \in {m_v, m_fhook, m_dtail, m_para, m_paral, m_tilde}
+    \/ t.m = m_sz /\ ~t.condtrue
 ExpectedLen(t) ==
     CASE t.m = 0 /\ t.key = CallKey -> Len(t.ids0)
       [] t.m = 0 -> Len(t.ids0) - t.ta + 1
       [] t.m = m_v -> Len(t.ids0) - t.ta + 1
       [] t.m \in {m_fhook, m_dtail} -> Len(t.ids0)
+      [] t.m = m_tilde -> IF t.ta >= 2 THEN Len(t.ids0) + 1 ELSE Len(t.ids0)     \* arguments kept + result / filter / no-op
+      [] t.m = m_sz -> Len(t.ids0) - 1
       [] t.m = m_para -> Len(t.ids0) - t.tb + 2
       [] OTHER -> Len(t.ids0) - t.tb + 1
 Prop_C09_Results(t) == ResultCountKnown(t) => Len(t.ids1) = ExpectedLen(t)
